@@ -265,25 +265,30 @@ def run(ctx):
         if f is None:
             ctx.error("R7", "get_model vanished")
         else:
-            loops = [n for n in ast.walk(f) if isinstance(n, ast.For)]
+            # model entry: <map>[k] = v  with  v = self.get_value(q): k and q must be the same term
             good = False
-            for lp in loops:
-                var = norm(lp.target)
-                asg = [n for n in ast.walk(lp) if isinstance(n, ast.Assign) and isinstance(n.targets[0], ast.Subscript)]
-                gv = [n for n in ast.walk(lp) if isinstance(n, ast.Assign) and isinstance(n.value, ast.Call) and attr_tail(n.value) == "get_value"]
-                if asg and gv:
-                    k = norm(asg[0].targets[0].slice)
-                    v = norm(asg[0].value)
-                    q = norm(gv[0].value.args[0])
-                    if k == var and q == var and v == norm(gv[0].targets[0]):
-                        good = True
-                        rs.ok({"loop_var": var, "query": norm(gv[0].value), "store": norm(asg[0])})
-                    else:
-                        ctx.finding(rs, "%s.get_model|store-mismatch" % TS,
-                                    "model entry %s <- %s for query %s" % (k, v, q), method_loc(repo, TS, asg[0]))
-                        good = True
+            asg = [n for n in ast.walk(f) if isinstance(n, ast.Assign) and isinstance(n.targets[0], ast.Subscript)]
+            gv = {}
+            for n in ast.walk(f):
+                if isinstance(n, ast.Assign) and isinstance(n.value, ast.Call) and attr_tail(n.value) == "get_value" \
+                        and isinstance(n.targets[0], ast.Name) and n.value.args:
+                    gv[n.targets[0].id] = n.value
+            for a in asg:
+                k = norm(a.targets[0].slice)
+                v = a.value
+                call = v if (isinstance(v, ast.Call) and attr_tail(v) == "get_value") else gv.get(norm(v))
+                if call is None:
+                    continue
+                good = True
+                q = norm(call.args[0])
+                if k == q:
+                    rs.ok({"store": norm(a), "query": norm(call)})
+                else:
+                    ctx.finding(rs, "%s.get_model|store-mismatch" % TS,
+                                "model entry for %s is the value the solver reported for %s" % (k, q),
+                                method_loc(repo, TS, a))
             if not good:
-                rs.unrec("get_model loop not recognised")
+                rs.unrec("get_model: value query / store not recognised")
             rets = [n for n in ast.walk(f) if isinstance(n, ast.Return)]
             if rets and "EagerModel" in norm(rets[0].value) and "assignment" in norm(rets[0].value):
                 rs.ok({"returns": short(rets[0].value)})
